@@ -380,6 +380,9 @@ type smEntranceRec struct {
 	// beyond the entered round, so the mirror still held that round when it answered
 	// (positions only move forward). False also when that is merely unknown.
 	live bool
+	// orphan: the mirror had left the entered round for a later round of the same height
+	// before the entrance was sent (positions only move forward, so this is certain)
+	orphan bool
 }
 
 type smEnterCmd struct {
@@ -391,6 +394,10 @@ type smEnterCmd struct {
 	// and report how many views arrived.
 	drain     int
 	drainDone chan int
+
+	// the voting position last persisted, read before the entrance is sent
+	nhrBefore  [4]uint64
+	haveBefore bool
 }
 
 type smEnterResult struct {
@@ -699,7 +706,10 @@ func (n *node) consumeSM(ctx context.Context, ch <-chan tmeil.StateMachineRoundV
 				nhr, have := n.cs.lastNHR, n.cs.haveNHR
 				n.cs.mu.Unlock()
 				live := have && (nhr[0] < cmd.re.H || (nhr[0] == cmd.re.H && nhr[1] <= uint64(cmd.re.R)))
-				n.smLog = append(n.smLog, recvSM{seq: s, entrance: &smEntranceRec{h: cmd.re.H, r: cmd.re.R, resp: res.resp, live: live}})
+				// orphan: read BEFORE the entrance was sent, the persisted voting position was
+				// already in a later round of the same height, so the mirror had dropped the round
+				orphan := cmd.haveBefore && cmd.nhrBefore[0] == cmd.re.H && cmd.nhrBefore[1] > uint64(cmd.re.R)
+				n.smLog = append(n.smLog, recvSM{seq: s, entrance: &smEntranceRec{h: cmd.re.H, r: cmd.re.R, resp: res.resp, live: live, orphan: orphan}})
 				n.rmu.Unlock()
 			case <-ctx.Done():
 			}
@@ -809,7 +819,8 @@ type loopGuard struct {
 type loopGuardKey struct{}
 
 // onPoint is the node's hook-point handler.
-// voteHold parks one Handle*Proofs call at the hook point "mirror.vote.beforeAdd": after the
+// voteHold parks one Handle*Proofs call at the hook point "mirror.vote.beforeAdd" (or, for a
+// vote beyond the next round, "mirror.futurevote.beforeAdd"): after the
 // mirror has looked up the view and merged and verified the message against it, right before
 // it hands the result to the kernel. The call carries the hold in its context.
 type voteHold struct {
@@ -825,7 +836,7 @@ func newVoteHold() *voteHold {
 }
 
 func (n *node) onPoint(ctx context.Context, name string) {
-	if name == "mirror.vote.beforeAdd" {
+	if name == "mirror.vote.beforeAdd" || name == "mirror.futurevote.beforeAdd" {
 		if h, ok := ctx.Value(voteHoldKey{}).(*voteHold); ok && h != nil {
 			h.once.Do(func() {
 				close(h.arrived)
@@ -1081,6 +1092,9 @@ func (n *node) smEnter(h uint64, r uint32, key *vkey) (resp tmeil.RoundEntranceR
 	ctx, cancel := n.callCtx()
 	defer cancel()
 	cmd := smEnterCmd{re: re, done: make(chan smEnterResult, 1)}
+	n.cs.mu.Lock()
+	cmd.nhrBefore, cmd.haveBefore = n.cs.lastNHR, n.cs.haveNHR
+	n.cs.mu.Unlock()
 	select {
 	case n.smCmds <- cmd:
 	case <-ctx.Done():
